@@ -249,7 +249,7 @@ func (s *Sim) NewSandbox(w *World) *Sandbox {
 		machinery("mkdtemp: %v", err)
 	}
 	sb := &Sandbox{sim: s, Root: root, W: filepath.Join(root, "w")}
-	for _, d := range []string{"w", "meta", "home"} {
+	for _, d := range []string{"w", "meta", "home", "tmp"} {
 		if err := os.MkdirAll(filepath.Join(root, d), 0o755); err != nil {
 			machinery("mkdir: %v", err)
 		}
@@ -357,6 +357,22 @@ func (sb *Sandbox) Snap() Snapshot {
 	return snap
 }
 
+// OutsideFiles lists what exists in the child's HOME and TMPDIR (both inside the sandbox, outside the world).
+func (sb *Sandbox) OutsideFiles() []string {
+	var out []string
+	for _, d := range []string{"home", "tmp"} {
+		_ = filepath.WalkDir(filepath.Join(sb.Root, d), func(p string, de fs.DirEntry, err error) error {
+			if err == nil && p != filepath.Join(sb.Root, d) {
+				rel, _ := filepath.Rel(sb.Root, p)
+				out = append(out, rel)
+			}
+			return nil
+		})
+	}
+	sort.Strings(out)
+	return out
+}
+
 func parseTrace(data []byte) []TraceEvent {
 	var out []TraceEvent
 	for _, line := range strings.Split(string(data), "\n") {
@@ -400,6 +416,7 @@ func (sb *Sandbox) Run(st Step) Result {
 	env := []string{
 		"PATH=/usr/bin:/bin",
 		"HOME=" + filepath.Join(sb.Root, "home"),
+		"TMPDIR=" + filepath.Join(sb.Root, "tmp"),
 		"TZ=UTC",
 		"LANG=C",
 		"GOTRACEBACK=none",
